@@ -257,6 +257,33 @@ static void multivariate()
             }
         }
     }
+    // polar / spherical to cartesian directly, for angles of many turns: x = rho cos(theta), y = rho sin(theta) (the angle is an exact
+    // floating-point number; nothing in the definition reduces it with a rounded value of 2 pi first)
+    if (R.shard.idx == 0)
+    {
+        for (double td : {0.5, -1.0, 3.0, 7.0, -10.0, 100.0, 1000.0, -12345.678, 1e6, -3e6})
+        {
+            for (double rd : {1.0, 2.5, 1e-3})
+            {
+                a_real th = (a_real)td, rho = (a_real)rd, bx, by, bz;
+                a_real_pol2cart(rho, th, &bx, &by);
+                Q wx = (Q)rho * cosq((Q)th), wy = (Q)rho * sinq((Q)th);
+                ++n; ++nt;
+                std::string in = "{\"rho\":" + num((double)rho) + ",\"theta\":" + num((double)th) + "}";
+                double tol = 8 * EPS * (double)rho;
+                if (!(fabsq((Q)bx - wx) <= tol && fabsq((Q)by - wy) <= tol)) { R.viol("real|pol2cart|value", "pol2cart(" + num((double)rho) + ", " + num((double)th) + ") = (" + num((double)bx) + ", " + num((double)by) + ") but rho*cos(theta), rho*sin(theta) = (" + num((double)wx) + ", " + num((double)wy) + ")", in); }
+                for (double ad : {0.25, -1.0, 50.0, -1000.0})
+                {
+                    a_real al = (a_real)ad;
+                    a_real_sph2cart(rho, th, al, &bx, &by, &bz);
+                    Q c = (Q)rho * cosq((Q)al);
+                    Q sx = c * cosq((Q)th), sy = c * sinq((Q)th), sz = (Q)rho * sinq((Q)al);
+                    ++n; ++nt;
+                    if (!(fabsq((Q)bx - sx) <= tol && fabsq((Q)by - sy) <= tol && fabsq((Q)bz - sz) <= tol)) { R.viol("real|sph2cart|value", "sph2cart(" + num((double)rho) + ", " + num((double)th) + ", " + num((double)al) + ") is not (rho cos(alpha) cos(theta), rho cos(alpha) sin(theta), rho sin(alpha))", in); }
+                }
+            }
+        }
+    }
     // three components, n components with strides, spherical coordinates: tuples over a smaller set
     std::vector<a_real> S;
     for (double d : {0.0, 1.0, 3.0, -4.0, (double)RMIN * 8, (EPS == (double)FLT_EPSILON ? 1e-30 : 1e-200), (EPS == (double)FLT_EPSILON ? 1e30 : 1e200), (double)RMAX / 4, -(double)RMAX / 2,
